@@ -30,8 +30,8 @@ TECHNIQUE = ("runtime monitoring: listener / wire / Deferred recorders around th
              "fake reactor and a reference Tor, complete enumeration of configuration cells x construction routes x "
              "fault points (one injected failure per execution, every command line of the dialogue as a disconnect point)")
 LEVEL_TEXT = ("Held on the executions observed: every configuration cell (ephemeral/filesystem x auth x version x "
-              "key x single-hop x directory kind) built through 7 construction routes, each run fault-free (two event "
-              "schedules) and once per fault point (configuration unavailable, bind refused, creating command rejected, all "
+              "key x single-hop x directory kind) built through 7 construction routes, each run fault-free (four event "
+              "schedules, two of them with another service's HS_DESC events inside the creation window) and once per fault point (configuration unavailable, bind refused, creating command rejected, all "
               "uploads failed, Tor hanging up instead of / right after answering the k-th command line for every k, loss "
               "before listen and between the descriptor events), plus the invalid option combinations the constructor and "
               "the endpoint-string parser declare. Enumeration of the stated cells and fault points with one fault per run, "
@@ -47,7 +47,7 @@ RULE = ("a case = configuration cell x route x fault. cell: ephemeral {auth none
         "constructor with a bootstrapped TorConfig / with a Deferred fired after listen() / with a TorConfig still bootstrapping, "
         "Tor.create_*_endpoint with and without a cached config, 'onion:' string with controlPort= (TCP or unix; real "
         "txtorcon.connect over the fake reactor's connectTCP/connectUNIX) and without (global Tor seeded through the _tor_launcher "
-        "hook). fault: see LEVEL_TEXT. Distinct = hash of (cell, route, fault, schedule, chunking). Non-trivial = listen() was "
+        "hook). fault: see LEVEL_TEXT; fault-free schedules: plain, own events while the creating reply is withheld, foreign-service events (succeeding / all failing) while the creating reply is withheld and the own hostname is still unknown. Distinct = hash of (cell, route, fault, schedule, chunking). Non-trivial = listen() was "
         "called and at least one oracle clause beyond 'nothing happened' was evaluated (a listener was opened or refused, or "
         "a refusal before start was checked).")
 ASSUMPTIONS = [
@@ -61,7 +61,11 @@ ASSUMPTIONS = [
     "non-detached service with its control connection; no further HS_DESC can arrive): listen() must fail and release the port",
     "upload histories are chosen so that the C15 findings do not matter: every own UPLOAD precedes every own result, foreign "
     "events only name directories the own service does not use, await_all is never requested",
-    "HS_DESC events delivered while the creating command's reply is withheld (Tor does not do this) are judged on safety only",
+    "OWN HS_DESC events delivered while the creating command's reply is withheld (Tor does not do this) are judged on safety only",
+    "FOREIGN HS_DESC events (another service of the same Tor, on directories of its own: UPLOAD x2 then UPLOADED, or UPLOAD x2 then FAILED x2) "
+    "delivered while the creating command is unanswered are something Tor does: the own service has made no attempt then, so listen() may "
+    "neither fire nor fail on them, nor fire when the reply arrives afterwards; for filesystem services the harness keeps <dir>/hostname "
+    "out of sight during that window (Tor writes it while it processes the SETCONF it has not answered yet)",
     "invalid combinations: refusal = an exception from the constructor / serverFromString, or a failed listen(); in either case no "
     "listenTCP call and no ADD_ONION/SETCONF/RESETCONF line; a control connection attempt or configuration *reads* started by "
     "system_tor()/Tor.get_config() before the constructor's checks run are counted, not judged",
@@ -98,7 +102,7 @@ ANCHORS = [
 ]
 FLOORS = {
     "quick": {"evaluations": 1400, "listen_calls": 1400, "listeners_checked_loopback": 1200, "mappings_compared": 800,
-              "not_fired_checks": 4500, "gethost_compared": 180, "stop_checked": 180, "leak_checks_after_failure": 1200,
+              "not_fired_checks": 4500, "not_fired_nor_failed_on_foreign_events_checks": 500, "foreign_window_runs": 120, "gethost_compared": 180, "stop_checked": 180, "leak_checks_after_failure": 1200,
               "failure_errors_compared": 1000, "refusals_before_start_checked": 10, "fault:close-on-line": 300,
               "fault:close-after-reply": 300, "fault:reject": 120, "fault:uploads-failed": 180, "fault:bind": 90, "fault:config": 40,
               "route:ctor": 200, "route:tor": 140, "route:str-system": 80, "route:str-global": 45,
@@ -107,7 +111,7 @@ FLOORS = {
               "reach:txtorcon.endpoints:TCPHiddenServiceEndpointParser.parseStreamServer": 250,
               "reach:txtorcon.controller:connect": 150},
     "thorough": {"evaluations": 4500, "listen_calls": 4500, "listeners_checked_loopback": 3500, "mappings_compared": 2500,
-                 "not_fired_checks": 14000, "gethost_compared": 500, "stop_checked": 500, "leak_checks_after_failure": 3500,
+                 "not_fired_checks": 14000, "not_fired_nor_failed_on_foreign_events_checks": 900, "foreign_window_runs": 200, "gethost_compared": 500, "stop_checked": 500, "leak_checks_after_failure": 3500,
                  "failure_errors_compared": 3000, "refusals_before_start_checked": 10, "fault:close-on-line": 1200,
                  "fault:close-after-reply": 1200, "fault:reject": 300, "fault:uploads-failed": 450, "fault:bind": 250, "fault:config": 100,
                  "random_cases": 4000,
@@ -193,7 +197,7 @@ def all_cells():
 
 def base_faults(route, cell):
     """fault points that do not depend on the length of the dialogue"""
-    f = [["none"], ["none", "hold"], ["bind"]]
+    f = [["none"], ["none", "hold"], ["none", "foreign-window", "uploaded"], ["none", "foreign-window", "failed"], ["bind"]]
     if route == "ctor-deferred":
         f += [["config", "fails-before-listen"], ["config", "fails-after-listen"]]
     if route in ("str-system", "str-system-unix"):
@@ -334,6 +338,7 @@ class Obs(object):
         self.hsdir = None
         self.state_lines_at_refusal = None
         self.implicit_dir_removed = None
+        self.foreign_window_events = 0
 
 
 def _auth_obj(cell):
@@ -447,7 +452,7 @@ class World(object):
             self.reactor.refuse_listen(lambda p, i: True)
         elif f[0] == "reject":
             self.tor.script(f[1], (f[2], [("end", "Unacceptable option value: %s refused (%s)" % (f[1], MARK))]))
-        elif f[0] == "none" and len(f) > 1 and f[1] == "hold":
+        elif f[0] == "none" and len(f) > 1 and f[1] in ("hold", "foreign-window"):
             self.tor.hold_next("ADD_ONION" if self.cell.get("eph", True) else "SETCONF")
 
     # -- plumbing ---------------------------------------------------------------
@@ -812,11 +817,45 @@ def execute(case):
             return w
         w.step("config-resolved")
         hold = w.fault[:2] == ["none", "hold"]
+        window = w.fault[:2] == ["none", "foreign-window"]
         svc = w.service()
-        if hold and svc is None and len(w.tor.held) == 1:
+        if (hold or window) and svc is None and len(w.tor.held) == 1:
             w.tor.release()             # what was withheld is Tor's refusal: nothing to announce
             w.step("released")
-            hold = False
+            hold = window = False
+        if window:
+            # Another onion service of the same Tor (re)publishes its descriptor while our creating command is still
+            # unanswered: the client does not know its own address yet (ephemeral: no reply; filesystem: Tor writes
+            # <dir>/hostname while it processes the SETCONF, i.e. the file is not there yet).  Nothing foreign may count.
+            if len(w.tor.held) != 1:
+                obs.harness = "creating command was not held: %r" % (w.tor.lines[-3:],)
+                return w
+            foreign = OT.KEYS.ed(78).service_id if len(svc[0]) == 56 else OT.KEYS.rsa(OT.CALLER_BASE + 1).service_id
+            hidden = None
+            if not w.cell.get("eph", True):
+                hn = os.path.join(os.path.realpath(ep.hidden_service_dir), "hostname")
+                if os.path.exists(hn):
+                    hidden = (hn, hn + ".not-yet-written")
+                    os.rename(*hidden)
+            try:
+                for dn in (7, 8):
+                    if w.tor.hs_desc("UPLOAD", foreign, dn, descid=AO.descriptor_id(foreign, dn)):
+                        obs.foreign_window_events += 1
+                    w.step("window:foreign-upload:%d" % dn)
+                if w.fault[2] == "failed":
+                    for dn in (7, 8):
+                        if w.tor.hs_desc("FAILED", foreign, dn, descid=AO.descriptor_id(foreign, dn), reason="UPLOAD_REJECTED"):
+                            obs.foreign_window_events += 1
+                        w.step("window:foreign-failed:%d" % dn)
+                else:
+                    if w.tor.hs_desc("UPLOADED", foreign, 7):
+                        obs.foreign_window_events += 1
+                    w.step("window:foreign-uploaded:7")
+            finally:
+                if hidden is not None:
+                    os.rename(hidden[1], hidden[0])
+            w.tor.release()
+            w.step("released")
         if hold:
             if len(w.tor.held) != 1:
                 obs.harness = "creating command was not held: %r" % (w.tor.lines[-3:],)
@@ -1104,20 +1143,31 @@ def judge(w, rec, case):
 
     # ---- listen() did not fire early -----------------------------------------------------------------
     hold = f[:2] == ["none", "hold"]
+    window = f[:2] == ["none", "foreign-window"]
+    tcls = kind + ("+foreign-events-before-creation-reply" if window else "")
+    if window:
+        rec.count("foreign_window_runs")
+        rec.count("foreign_window_events_delivered", obs.foreign_window_events)
     # reply withheld: the service exists once the reply is out and an own UPLOADED may already have been counted
     legit = "released" if hold else "uploaded:0"
     for (name, fired, acked) in obs.steps:
         if name == legit or name in ("stopped", "quiesce-0", "quiesce-1"):
             break
         rec.count("not_fired_checks")
+        if window and (name.startswith("window:") or name == "released"):
+            rec.count("not_fired_nor_failed_on_foreign_events_checks")
         if fired and o.ok:
-            V("fired-before-descriptor-wait-over" if acked else "fired-before-service-exists", kind, {"at_step": name})
+            V("fired-before-descriptor-wait-over" if acked else "fired-before-service-exists", tcls, {"at_step": name})
             break
+        if fired and not o.ok and window and not (code is not None and code >= 400):
+            V("failed-on-foreign-descriptor-events", kind + "+foreign-" + f[2] + "-before-creation-reply",
+              {"at_step": name, "got": "%s: %s" % (type(o.value).__name__, o.value)})
+            return bad, True
     if o.fired and o.ok and obs.at_fire is not None:
         if not obs.at_fire["create_acked"] or obs.at_fire["held"]:
-            V("fired-before-service-exists", kind, {"at_fire": obs.at_fire})
+            V("fired-before-service-exists", tcls, {"at_fire": obs.at_fire})
         elif not obs.at_fire["own_uploaded_sent"] and not hold:
-            V("fired-before-descriptor-wait-over", kind, {"at_fire": obs.at_fire})
+            V("fired-before-descriptor-wait-over", tcls, {"at_fire": obs.at_fire})
     if o.fired > 1:
         V("listen-fired-%d-times" % o.fired, failing_step(w) + "+" + kind, {})
 
